@@ -646,4 +646,51 @@ theorem target_of_no_deltas (c : Codec σ β) (s : St σ β) (h : s.deltas = [])
     target c s id = AList.find? s.base id := by
   simp [target, h]
 
+/-! ### Commits leave the identifier counters alone; `dropCache`; frames -/
+
+theorem commitKey_aux (c : Codec σ β) (fault : Nat → Bool) (r : CommitRes σ β) (k : SlabID) :
+    (commitKey c fault r k).st.alloc = r.st.alloc ∧ (commitKey c fault r k).st.tempIx = r.st.tempIx := by
+  unfold commitKey
+  split
+  · exact ⟨rfl, rfl⟩
+  · dsimp only
+    split
+    · split <;> exact ⟨rfl, rfl⟩
+    · split <;> exact ⟨rfl, rfl⟩
+    · split
+      · exact ⟨rfl, rfl⟩
+      · split <;> exact ⟨rfl, rfl⟩
+
+theorem commitKeys_fold_aux (c : Codec σ β) (fault : Nat → Bool) (keys : List SlabID)
+    (r : CommitRes σ β) :
+    (keys.foldl (commitKey c fault) r).st.alloc = r.st.alloc ∧
+    (keys.foldl (commitKey c fault) r).st.tempIx = r.st.tempIx := by
+  induction keys generalizing r with
+  | nil => exact ⟨rfl, rfl⟩
+  | cons k ks ih =>
+    obtain ⟨h1, h2⟩ := ih (commitKey c fault r k)
+    obtain ⟨g1, g2⟩ := commitKey_aux c fault r k
+    exact ⟨h1.trans g1, h2.trans g2⟩
+
+theorem commitW_aux (c : Codec σ β) (kind : CommitKind) (fault : Nat → Bool) (mo dlo : List SlabID)
+    (s : St σ β) :
+    (commitW c kind fault mo dlo s).st.alloc = s.alloc ∧
+    (commitW c kind fault mo dlo s).st.tempIx = s.tempIx := by
+  obtain ⟨keys, _, hshape⟩ := commitW_shape c kind fault mo dlo s
+  rcases hshape with h | ⟨_, h⟩
+  · rw [h]; exact commitKeys_fold_aux c fault keys _
+  · rw [h]; exact ⟨rfl, rfl⟩
+
+theorem view_dropCache (c : Codec σ β) (s : St σ β) (hI : Inv c s) (id : SlabID) :
+    s.dropCache.view c id = s.view c id := by
+  cases hd : AList.find? s.deltas id with
+  | some v => simp [St.view, St.dropCache, hd]
+  | none =>
+    rw [view_of_not_pending c s hI id hd]
+    simp [St.view, St.dropCache, hd, St.committed]
+
+theorem target_congr (c : Codec σ β) (s s' : St σ β) (hd : s'.deltas = s.deltas)
+    (hb : s'.base = s.base) (id : SlabID) : target c s' id = target c s id := by
+  simp [target, hd, hb]
+
 end Atree
